@@ -88,6 +88,9 @@ var c05Atoms = []c05Atom{
 	{"div-by-zero", `(1 / mark(0))`, "op"},
 	{"unknown-ident", `nope`, "unknown"},
 	{"unknown-func-call", `nope()`, "mustfail"},
+	// a path under an unknown identifier is not an identifier: it is a real failure in every context
+	{"unknown-path", `nope.Name`, "mustfail"},
+	{"unknown-path-2", `nope.Kid.Name`, "mustfail"},
 	{"unknown-arg", `ident(nope)`, "mustfail"},
 	{"missing-method-on-pointer", `pst.Nope()`, "mustfail"},
 	{"missing-method-on-value", `vst.Nope()`, "mustfail"},
